@@ -506,11 +506,27 @@ pub const NAME_CASES: [(&str, &str, &str); 24] = [
     ("<n:r xmlns:n='u' xmlns:m='u'><m:a/></n:r>", "local-name(/*/*)", "a"),
 ];
 
-pub const FUNC_DOCS: [&str; 2] = [
+// the thirteen axes on one document; expected: string value of the expression (names joined by the expression itself)
+pub const AXIS_DOC: &str = "<r><a><b><e/></b><f/></a><c><d/><g><h/></g></c><i/></r>";
+pub const AXIS_CASES: [(&str, &str); 30] = [
+    ("count(//b/following::*)", "6"), ("name(//b/following::*[1])", "f"), ("name(//b/following::*[2])", "c"), ("name(//b/following::*[6])", "i"),
+    ("count(//e/following::*)", "6"), ("count(//h/following::*)", "1"), ("name(//h/following::*)", "i"), ("count(//i/following::*)", "0"),
+    ("count(//d/preceding::*)", "4"), ("name(//d/preceding::*[1])", "f"), ("name(//d/preceding::*[2])", "e"), ("name(//d/preceding::*[4])", "a"),
+    ("count(//h/preceding::*)", "5"), ("name(//h/preceding::*[1])", "d"), ("count(//a/preceding::*)", "0"), ("count(//i/preceding::*)", "8"),
+    ("count(//h/ancestor::*)", "3"), ("name(//h/ancestor::*[1])", "g"), ("name(//h/ancestor::*[3])", "r"), ("count(//h/ancestor-or-self::*)", "4"),
+    ("count(/r/descendant::*)", "9"), ("name(/r/descendant::*[3])", "e"), ("count(//a/descendant-or-self::*)", "4"),
+    ("count(//a/following-sibling::*)", "2"), ("name(//i/preceding-sibling::*[1])", "c"), ("name(//i/preceding-sibling::*[2])", "a"),
+    ("count(//c/child::*)", "2"), ("name(//g/parent::*)", "c"), ("count(//e/following::* | //e/preceding::* | //e/ancestor::* | //e/descendant::* | //e/self::*)", "10"),
+    ("count(//h/following::node() | //h/preceding::node() | //h/ancestor::node() | //h/descendant::node() | //h/self::node())", "11"),
+];
+
+pub const FUNC_DOCS: [&str; 3] = [
+    // a namespace declaration whose value cannot be computed (entities that refer to each other)
+    "<!DOCTYPE r [<!ENTITY a '&b;'><!ENTITY b '&a;'>]><r xmlns:p='&a;' lang='x'><a/></r>",
     "<r xml:lang='\u{65e5}\u{672c}\u{8a9e}' lang='e\u{20ac}'><a lang='\u{e9}' x='\u{1d4b3}'>\u{e9}\u{20ac}\u{1d4b3}</a><b lang=''/><!--\u{e9}--><?p \u{e9}?></r>",
     "<!DOCTYPE r [<!ATTLIST r i ID #IMPLIED>]><r i='k' lang='en-US'><a lang='EN'>x</a> </r>",
 ];
-pub const FUNC_CALLS: [&str; 58] = [
+pub const FUNC_CALLS: [&str; 60] = [
     "lang('en')", "lang('e')", "lang('')", "lang('\u{65e5}')", "lang('\u{e9}\u{e9}')", "lang(.)", "lang(//a)", "lang(1)",
     "local-name()", "local-name(.)", "local-name(//@*)", "local-name(/)", "local-name(//comment())", "name()", "name(//@*)", "name(//processing-instruction())", "namespace-uri()", "namespace-uri(//@*)", "name(//namespace::*)",
     "string()", "string(.)", "string(//@*)", "string(/)", "concat('\u{e9}', ., //@*)", "concat('', '')",
@@ -519,6 +535,7 @@ pub const FUNC_CALLS: [&str; 58] = [
     "substring(., 2)", "substring(., 0, 1)", "substring('\u{e9}\u{20ac}\u{1d4b3}', 1.5, 2.6)", "substring(., -1 div 0, 1 div 0)", "substring(., 0 div 0)", "string-length()", "string-length(//@x)",
     "normalize-space()", "normalize-space('  \u{e9}  \u{20ac} ')", "translate(., '\u{e9}\u{20ac}', 'x')", "translate('\u{1d4b3}', '\u{1d4b3}', '')",
     "boolean(.)", "not(//@*)", "number()", "number('\u{e9}')", "sum(//@*)", "sum(//a)", "floor(.)", "ceiling(//@x)", "round(-0.5)", "count(//node()) + position() + last()",
+    "count(//namespace::*)", "//a/namespace::node()",
 ];
 
 pub const QUERIES: [&str; 60] = [
@@ -593,7 +610,7 @@ pub fn xpath_query_op(kind: &str, a: &Args) -> Option<Outcome> {
             Some(Outcome { observed, expected: format!("Number({}.0 bits:{:#018x})", want, want.parse::<f64>().unwrap().to_bits()), note: d.to_string() })
         }
         // C10: name tests and name functions against expanded names; the caller binds q -> "u" and w -> "w"
-        "names" => {
+        "names" | "axes" => {
             let want = a.get("expected").cloned().unwrap_or_default();
             let observed = guard(|| {
                 let mut c = Context::default();
@@ -991,6 +1008,11 @@ pub fn xpath_grid(rest: &[&str]) -> Vec<Args> {
         ["query", "names"] => {
             for (d, q, e) in NAME_CASES {
                 out.push(mk(&[("doc", d), ("query", q), ("expected", e)]));
+            }
+        }
+        ["query", "axes"] => {
+            for (q, e) in AXIS_CASES {
+                out.push(mk(&[("doc", AXIS_DOC), ("query", q), ("expected", e)]));
             }
         }
         ["query", kind] => {
